@@ -158,11 +158,16 @@ def make_image(d, prefix, kind):
 def prune_old(keep):
     if not os.path.isdir(BUILD):
         return
-    ds = sorted((os.path.join(BUILD, x) for x in os.listdir(BUILD)), key=os.path.getmtime, reverse=True)
+    def mtime(p):
+        try:
+            return os.path.getmtime(p)
+        except OSError:      # removed by a check running in parallel
+            return 0.0
+    ds = sorted((os.path.join(BUILD, x) for x in os.listdir(BUILD)), key=mtime, reverse=True)
     now = time.time()
     for old in ds[keep:]:
         # another check (a scratch run against a changed tree, say) may still be using a directory it built a while ago
-        if now - os.path.getmtime(old) > 45 * 60:
+        if now - mtime(old) > 45 * 60:
             shutil.rmtree(old, ignore_errors=True)
 
 
